@@ -263,6 +263,13 @@ def run_spec(spec):
             tls.submitting = None
             sub_done.set()
 
+    def inline_hook(r):
+        t = tspec(r.idx)
+        if t.get('inline') and t['outcome'] in ('ok', 'error'):
+            return ('ok' if t['outcome'] == 'ok' else 'error', datas.get(r.idx, b''))
+        return None
+
+    client.inline_hook = inline_hook
     order = spec.get('order', 'fifo')
     stop = threading.Event()
     crng = random.Random(spec['seed'] + 1)
@@ -617,6 +624,13 @@ def gen_cases(tier, seed):
                 cases.append({'seed': rng.randrange(1 << 30), 'permits': n + 1, 'transfers': ts, 'order': 'fifo', 'family': 'exit-barrier',
                               'exit': rng.choice(['shutdown', 'with']), 'crt_threads': rng.choice([2, 3]),
                               'window': {'file': 'crt.py', 'line': line[1], 'nth': nth, 'action': 'pause', 'name': f'crt.py:{line[1]}:{line[2]}', 'wait': 0.2}})
+    # requests that complete BEFORE make_request() returns (the done chain runs inside the submitting call)
+    for c in cases:
+        if c.get('window') or c.get('family'):
+            continue
+        for t in c['transfers']:
+            if isinstance(t, dict) and t.get('outcome') in ('ok', 'error') and not t.get('hold') and rng.random() < 0.12:
+                t['inline'] = True
     rng.shuffle(cases)
     return cases
 
